@@ -29,6 +29,7 @@ VARIANTS = {
     "remote-mixed": {"posters": [("remote", [20, 10]), ("local", [10, 20])], "late": False},
     "late-registration": {"posters": [("local", [20, 20]), ("local", [10, 20])], "late": True},
     "late-remote": {"posters": [("remote", [20, 20]), ("local", [20, 5])], "late": True},
+    "late-three": {"posters": [("local", [20, 20, 20])], "late": True},
     "shutdown-race": {"posters": [("local", [20])], "late": False, "main_posts": [20]},
 }
 
@@ -193,7 +194,7 @@ def default_length(variant):
 
 def run(ctx):
     ctx.level = "model_checking"
-    small = ("local-same-type", "local-mixed", "shutdown-race")
+    small = ("local-same-type", "local-mixed", "shutdown-race", "late-three")
     bounds = {v: ((2 if v in small else 1) if ctx.quick else (3 if v in small else 2)) for v in VARIANTS}
     bound = bounds
     items = []
